@@ -154,18 +154,6 @@ impl query::QueryDispatcher for RecDispatcher {
     }
     fn cast_shapes_nonlinear(&self, _: &NonlinearRigidMotion, _: &dyn Shape, _: &NonlinearRigidMotion, _: &dyn Shape, _: f64, _: f64, _: bool) -> Result<Option<ShapeCastHit>, query::Unsupported> { Err(query::Unsupported) }
 }
-/// the cells visited by the real height-field cast, in order, consecutive repetitions merged
-fn hf_trace(pos12: &Iso, vel12: &V, hf: &px::shape::HeightField, g2: &dyn Shape, o: ShapeCastOptions) -> Vec<(usize, usize)> {
-    let rec = RecDispatcher { log: std::sync::Mutex::new(Vec::new()) };
-    let _ = px::query::details::cast_shapes_heightfield_shape(&rec, pos12, vel12, hf, g2, o);
-    let mut out: Vec<(usize, usize)> = Vec::new();
-    for g in rec.log.lock().unwrap().iter() {
-        let c = hf_cell_of(hf, &**g).unwrap_or((usize::MAX, usize::MAX));
-        if out.last() != Some(&c) { out.push(c); }
-    }
-    out
-}
-
 pub fn exec(func: &str, a: &mut Args) -> String {
     match func {
         "ray_ball" => {
@@ -413,18 +401,6 @@ pub fn exec(func: &str, a: &mut Args) -> String {
             }
         }
         "hfwalk" => hfwalk_exec(a),
-        // debugging aid: the e2e arguments seen from the height field's frame + the trace of the cell walk
-        "hfdbg" => {
-            let pos1 = dx::iso(a); let vel1 = dx::v(a); let g1 = shape(a);
-            let pos2 = dx::iso(a); let vel2 = dx::v(a); let g2 = shape(a); let o = opts(a);
-            let pos12 = pos1.inv_mul(&pos2); let vel12 = pos1.inverse_transform_vector(&(vel2 - vel1));
-            let (hf, other, p, v) = if g1.as_heightfield().is_some() { (&g1, &g2, pos12, vel12) } else { (&g2, &g1, pos12.inverse(), -pos12.inverse_transform_vector(&vel12)) };
-            let h = hf.as_heightfield().unwrap();
-            let bb = other.compute_aabb(&p).loosened(o.target_distance);
-            format!("t={:?} v={:?} aabb={:?}..{:?} lines={:?} max={} target={} hfaabb={:?} trace={:?} res={:?}", p.translation.vector.as_slice(), v.as_slice(), bb.mins.coords.as_slice(), bb.maxs.coords.as_slice(),
-                    hf_lines(h), o.max_time_of_impact, o.target_distance, h.local_aabb(), hf_trace(&p, &v, h, &**other, o),
-                    query::cast_shapes(&pos1, &vel1, &*g1, &pos2, &vel2, &*g2, o).map(|x| x.map(|h| h.time_of_impact)))
-        }
         _ => "nofn".into(),
     }
 }
